@@ -156,14 +156,22 @@ def _corrupt_get(e, state):
 
 
 def _canary(rep, shard, rejected):
-    """Binding demonstration on ACCEPTED events of this run (the prefix of a shard before the first rejected event): for
+    """Binding demonstration on ACCEPTED events of this run (the cases of a shard without any rejected event): for
     each of three corruptions of a recorded OUTPUT that is certainly a violation, the events of a case up to the first
     event it applies to are copied and that event is corrupted; TLC must reject exactly these three events, with the
     classes exact / unsound / unsound."""
     import copy
     lines = core.read_lines(shard)
-    stop = min(list(rejected) + [len(lines) + 1]) - 1
-    evs = [json.loads(x) for x in lines[:stop]]
+    evs, case, clean = [], [], True
+    for i, x in enumerate(lines + ['{"ev":"reset"}']):
+        if '"ev":"reset"' in x:
+            if case and clean:
+                evs += case                      # a case without any rejected event
+            case, clean = [], True
+            if i == len(lines):
+                break
+        case.append(json.loads(x))
+        clean = clean and (i + 1) not in rejected
     out, want = [], {}
     for cls, fn in (("exact", _corrupt_exact), ("unsound", _corrupt_weak), ("unsound", _corrupt_get)):
         state, start, found = [[], []], 0, False
@@ -180,7 +188,7 @@ def _canary(rep, shard, rejected):
             if "state" in e:
                 state = e["state"]
         if not found:
-            raise ToolError("canary: the accepted prefix of %s (%d events) has no event for corruption %s" % (shard, len(evs), fn.__name__))
+            raise ToolError("canary: the accepted cases of %s (%d events) have no event for corruption %s" % (shard, len(evs), fn.__name__))
     path = os.path.join(core.BUILD, "traces", "canary_X05.ndjson")
     with open(path, "w") as g:
         for e in out:
@@ -226,14 +234,20 @@ def check(seed, tier):
     quick = tier == "quick"
     meta = core.gen("X05", seed, tier, shards=4 if quick else 8)
     # mode M and mode T side by side: 4 model-checking JVMs (2 workers each) + the trace validators
+    skip_m = bool(os.environ.get("VERIF_X05_SKIP_M"))     # seeded-change experiments only: mode M does not depend on the code
     with cf.ThreadPoolExecutor(max_workers=2) as ex:
-        fm = ex.submit(_self_checks, rep, tier)
+        fm = None if skip_m else ex.submit(_self_checks, rep, tier)
         ft = ex.submit(_validate, rep, meta["files"], 4)
         bad = ft.result()
-        fm.result()
+        if fm:
+            fm.result()
+    if skip_m:
+        rep.notes.append("mode M skipped (VERIF_X05_SKIP_M): this run shows the trace validation only")
     first = meta["files"][0]
-    # the canary needs accepted events: it works on the prefix of the first shard before the first rejected event
-    _canary(rep, first, bad[first])
+    if rep.violations:
+        rep.notes.append("canary skipped: this run already found violations")
+    else:
+        _canary(rep, first, bad[first])     # on the cases of the first shard without any rejected event
     rep.traces, rep.events = meta["cases"], meta["events"]
     x = meta["extra"]
     return rep.finish("model_checking", {
